@@ -340,6 +340,21 @@ func registerIntercepts(e *Engine) {
 		return one(st, en.alloc(st, &StructV{F: nf}))
 	})
 	e.reg("(*time.Ticker).Stop", noop)
+	// time.After / time.Tick: a channel that is ready whenever a select looks at it
+	after := func(c *CallCtx, st *State, args []Value) []Outcome {
+		return one(st, Chan{ID: c.E.newCell(), Kind: "after"})
+	}
+	e.reg("time.After", after)
+	e.reg("time.Tick", after)
+	e.reg("time.NewTimer", func(c *CallCtx, st *State, args []Value) []Outcome {
+		en := c.E
+		t := Zero(en.typeOf("time", "Timer")).(*StructV)
+		nf := append([]Value(nil), t.F...)
+		nf[0] = Chan{ID: en.newCell(), Kind: "after"}
+		return one(st, en.alloc(st, &StructV{F: nf}))
+	})
+	e.reg("(*time.Timer).Stop", func(c *CallCtx, st *State, args []Value) []Outcome { return one(st, smt.True) })
+	e.reg("time.AfterFunc", func(c *CallCtx, st *State, args []Value) []Outcome { return one(st, Ptr{}) })
 
 	// ---- sync ----
 	lock := func(v int64) Intercept {
@@ -446,6 +461,90 @@ func registerIntercepts(e *Engine) {
 		}
 		sep, _ := strArg(args[1])
 		return one(st, Str{S: strings.Join(parts, sep)})
+	})
+	// further pure string helpers, evaluated natively on concrete operands
+	str2bool := func(name string, f func(a, b string) bool) {
+		e.reg(name, func(c *CallCtx, st *State, args []Value) []Outcome {
+			a, ok1 := strArg(args[0])
+			b, ok2 := strArg(args[1])
+			if !ok1 || !ok2 {
+				c.E.abort("%s on a symbolic string is not modelled", name)
+			}
+			return one(st, smt.BoolC(f(a, b)))
+		})
+	}
+	str2bool("strings.Contains", strings.Contains)
+	str2bool("strings.HasSuffix", strings.HasSuffix)
+	str2bool("strings.EqualFold", strings.EqualFold)
+	str2int := func(name string, f func(a, b string) int) {
+		e.reg(name, func(c *CallCtx, st *State, args []Value) []Outcome {
+			a, ok1 := strArg(args[0])
+			b, ok2 := strArg(args[1])
+			if !ok1 || !ok2 {
+				c.E.abort("%s on a symbolic string is not modelled", name)
+			}
+			return one(st, smt.IntC(int64(f(a, b))))
+		})
+	}
+	str2int("strings.Index", strings.Index)
+	str2int("strings.LastIndex", strings.LastIndex)
+	str2int("strings.Count", strings.Count)
+	str2str := func(name string, f func(a, b string) string) {
+		e.reg(name, func(c *CallCtx, st *State, args []Value) []Outcome {
+			a, ok1 := strArg(args[0])
+			b, ok2 := strArg(args[1])
+			if !ok1 || !ok2 {
+				return one(st, args[0])
+			}
+			return one(st, Str{S: f(a, b)})
+		})
+	}
+	str2str("strings.TrimPrefix", strings.TrimPrefix)
+	str2str("strings.TrimSuffix", strings.TrimSuffix)
+	str2str("strings.TrimLeft", strings.TrimLeft)
+	str2str("strings.TrimRight", strings.TrimRight)
+	str1 := func(name string, f func(a string) string) {
+		e.reg(name, func(c *CallCtx, st *State, args []Value) []Outcome {
+			a, ok := strArg(args[0])
+			if !ok {
+				return one(st, args[0])
+			}
+			return one(st, Str{S: f(a)})
+		})
+	}
+	str1("strings.ToLower", strings.ToLower)
+	str1("strings.ToUpper", strings.ToUpper)
+	strSplit := func(name string, f func(a string) []string) {
+		e.reg(name, func(c *CallCtx, st *State, args []Value) []Outcome {
+			a, ok := strArg(args[0])
+			if !ok {
+				c.E.abort("%s on a symbolic string is not modelled", name)
+			}
+			parts := f(a)
+			el := make([]Value, len(parts))
+			for i, p := range parts {
+				el[i] = Str{S: p}
+			}
+			cell := c.E.newCell()
+			st.heap[cell] = &ArrayV{E: el}
+			return one(st, Slice{Cell: cell, Lo: 0, Hi: len(el), Cap: len(el)})
+		})
+	}
+	strSplit("strings.Fields", strings.Fields)
+	e.reg("strings.Split", func(c *CallCtx, st *State, args []Value) []Outcome {
+		a, ok1 := strArg(args[0])
+		b, ok2 := strArg(args[1])
+		if !ok1 || !ok2 {
+			c.E.abort("strings.Split on a symbolic string is not modelled")
+		}
+		parts := strings.Split(a, b)
+		el := make([]Value, len(parts))
+		for i, p := range parts {
+			el[i] = Str{S: p}
+		}
+		cell := c.E.newCell()
+		st.heap[cell] = &ArrayV{E: el}
+		return one(st, Slice{Cell: cell, Lo: 0, Hi: len(el), Cap: len(el)})
 	})
 	e.reg("strconv.Itoa", func(c *CallCtx, st *State, args []Value) []Outcome {
 		t := args[0].(*smt.Term)
